@@ -4,12 +4,12 @@ from .. import lbgen
 from . import c02
 
 ID = "C06"
-MODULES = ["Helios.Props.C06", "Helios.Props.Facts", "Helios.Props.Code"]
+MODULES = ["Helios.Props.C06", "Helios.Props.Facts", "Helios.Props.CodeHash"]
 THEOREMS = ["Helios.LB.jump_range'", "Helios.LB.jump_monotone'", "Helios.LB.jump_no_overflow",
             "Helios.LB.affinity", "Helios.LB.hash_stateless", "Helios.LB.key_ignores_port",
             "Helios.LB.choice_valid", "Helios.LB.append_minimal",
             "Helios.Facts.jump_mul_eq", "Helios.Facts.extraction_clean",
-            "Helios.CodeTie.jumpHash_refines", "Helios.CodeTie.translation_clean"]
+            "Helios.CodeTie.jumpHash_refines", "Helios.CodeTie.translation_clean_hash"]
 
 KEYS = ["10.0.0.%d" % i for i in range(1, 40)] + ["2001:db8::%x" % i for i in range(1, 12)] + [
     "junk", "", " ", "a,b", ",", "10.0.0.1, 10.0.0.2", " x", "x" * 200, "::1", "[::1]", "1.2.3.4:5", "%", "+"]
@@ -46,6 +46,14 @@ def gen_episode(rng, big=False):
         order = [gr for gr in groups for _ in range(rng.randint(1, 3))]
         rng.shuffle(order)
         for gi, key, how in order:
+            if rng.random() < 0.08:
+                # an admin re-applies the strategy, or switches away and back, with the backend set
+                # unchanged: every client keeps its backend
+                if rng.random() < 0.5:
+                    g.ops.append("lb strategy %s" % strat)
+                else:
+                    g.ops.append("lb strategy %s" % rng.choice(["round_robin", "least_connections", "ip_hash"]))
+                    g.ops.append("lb strategy %s" % strat)
             g.ops.append("# grp %d %d" % (g.tid + 1, gi))
             g.request(outcome="200", **client_variants(rng, key, how))
         if ph + 1 < phases:
